@@ -169,4 +169,237 @@ theorem C08_addr_rt_b58 (env : Env) (laws : CodecLaws env) (net : Network) (hn :
         rw [parseB58Addr_hit env laws net hb q hne .p2sh h hw (by simp [Info.wellSized, hw])]
     | _ => simp [Info.isB58] at hk
 
+def Info.isSegwit : Info → Bool | .p2pkhWit _ => true | .p2shWit _ => true | .p2tr _ => true | _ => false
+
+theorem parseB58Addr_none_of_dec (env : Env) (net : Network) (pfx : Option Bytes) (mk : Bytes → Info) (s : String)
+    (h : env.b58cDec s = none) : parseB58Addr env net pfx mk s = .ok none := by
+  unfold parseB58Addr parseB58Hashed
+  split <;> simp_all
+
+/-- ◐ address round trip, segwit kinds.  Extra hypothesis `hx`: the Bech32 string is not *also* a valid Base58Check
+string (the Base58 parsers are tried first; a collision needs every character to fall in both alphabets and a 32-bit
+double-SHA-256 checksum to match, which the model treats as a property of the codec, not of this code). -/
+theorem C08_addr_rt_segwit_partial (env : Env) (laws : CodecLaws env) (net : Network) (hn : net ∈ all)
+    (hdis : net.disabled.contains "address" = false)
+    (i : Info) (hk : i.isSegwit = true) (hw : i.wellSized = true) (addr : String)
+    (ha : forScriptInfo env net i = .ok (some addr)) (hx : env.b58cDec addr = none) :
+    forScript env net (stdScript i) = .ok (some addr) ∧
+    parseAddress env net addr = .ok (some i) ∧ forInfo i = .ok (stdScript i) := by
+  have htab := C08_table_consistent net hn
+  refine ⟨?_, ?_, forInfo_std i hw⟩
+  · simp only [forScript, infoForScript_std i hw, bind, Except.bind, ha]
+  · have h1 : parseP2pkh env net addr = .ok none := parseB58Addr_none_of_dec env net _ _ _ hx
+    have h2 : parseP2sh env net addr = .ok none := parseB58Addr_none_of_dec env net _ _ _ hx
+    unfold parseAddress
+    simp only [hdis, Bool.false_eq_true, if_false, h1, h2, orElse]
+    cases hh : net.addrHrp with
+    | none => cases i <;> simp [forScriptInfo, forP2pkhWit, forP2shWit, forP2tr, hh, Info.isSegwit] at ha hk
+    | some hrp =>
+      have hph : net.parseHrp = some hrp := by rw [← htab.2.2, hh]
+      cases i with
+      | p2pkhWit h =>
+        simp only [Info.wellSized, decide_eq_true_eq] at hw
+        simp only [forScriptInfo, forP2pkhWit, hh, hw, ne_eq, not_true_eq_false, if_false, Except.ok.injEq] at ha
+        have hp := laws.seg_rt _ _ _ _ ha
+        simp only [parseP2pkhSegwit, parseBech32m, hp, hph, if_true, hw, ne_eq, not_true_eq_false, if_false, and_false,
+          forInfo_std (.p2pkhWit h) (by simp [Info.wellSized, hw]), infoForScript_std (.p2pkhWit h) (by simp [Info.wellSized, hw]),
+          bind, Except.bind, pure, Except.pure, and_self, false_and]
+      | p2shWit h =>
+        simp only [Info.wellSized, decide_eq_true_eq] at hw
+        simp only [forScriptInfo, forP2shWit, hh, hw, ne_eq, not_true_eq_false, if_false, Except.ok.injEq] at ha
+        have hp := laws.seg_rt _ _ _ _ ha
+        have h20 : ¬ (h.length = 20) := by omega
+        simp only [parseP2pkhSegwit, parseP2shSegwit, parseBech32m, hp, hph, if_true, hw, h20, ne_eq, not_true_eq_false, if_false,
+          not_false_eq_true, and_false,
+          forInfo_std (.p2shWit h) (by simp [Info.wellSized, hw]), infoForScript_std (.p2shWit h) (by simp [Info.wellSized, hw]),
+          bind, Except.bind, pure, Except.pure, and_self, false_and]
+        simp
+      | p2tr h =>
+        simp only [Info.wellSized, decide_eq_true_eq] at hw
+        simp only [forScriptInfo, forP2tr, hh, Except.ok.injEq] at ha
+        have hp := laws.seg_rt _ _ _ _ ha
+        have h20 : ¬ (h.length = 20) := by omega
+        simp only [parseP2pkhSegwit, parseP2shSegwit, parseP2tr, parseBech32m, hp, hph, if_true, hw, h20, ne_eq, not_true_eq_false,
+          if_false, not_false_eq_true, and_false, Nat.zero_ne_one, Nat.one_ne_zero,
+          forInfo_std (.p2tr h) (by simp [Info.wellSized, hw]), infoForScript_std (.p2tr h) (by simp [Info.wellSized, hw]),
+          bind, Except.bind, pure, Except.pure, and_self, false_and, true_and, and_true]
+        simp
+      | _ => simp [Info.isSegwit] at hk
+
+/-! ## accepted strings re-encode to themselves -/
+
+theorem isPrefixOf_split {p d : Bytes} (h : isPrefixOf p d = true) : d = p ++ d.drop p.length := by
+  have : d.take p.length = p := by simpa [isPrefixOf] using h
+  conv => lhs; rw [← List.take_append_drop p.length d, this]
+
+theorem parseB58Addr_some (env : Env) (net : Network) (pfx : Option Bytes) (mk : Bytes → Info) (s : String) (i : Info)
+    (hmk : ∀ d, d.length = 20 → (mk d).wellSized = true)
+    (h : parseB58Addr env net pfx mk s = .ok (some i)) :
+    ∃ p hsh, pfx = some p ∧ net.b58DoubleSha = true ∧ env.b58cDec s = some (p ++ hsh) ∧ hsh.length = 20 ∧ i = mk hsh := by
+  unfold parseB58Addr at h
+  cases hd : parseB58Hashed env net s with
+  | none => simp [hd] at h
+  | some data =>
+    cases pfx with
+    | none => simp [hd] at h
+    | some p =>
+      simp only [hd] at h
+      have hb : net.b58DoubleSha = true ∧ env.b58cDec s = some data := by
+        unfold parseB58Hashed at hd
+        split at hd
+        · rename_i hb; exact ⟨hb, hd⟩
+        · cases hd
+      split at h
+      · cases h
+      · rename_i hpre
+        split at h
+        · cases h
+        · rename_i hlen
+          have hpre' : isPrefixOf p data = true := by simpa using hpre
+          have hlen' : data.length = p.length + 20 := by simpa using hlen
+          have hdl : (data.drop p.length).length = 20 := by simp [hlen']
+          have hw := hmk _ hdl
+          simp only [forInfo_std _ hw, infoForScript_std _ hw, bind, Except.bind, pure, Except.pure, Except.ok.injEq,
+            Option.some.injEq] at h
+          refine ⟨p, data.drop p.length, rfl, hb.1, ?_, hdl, h.symm⟩
+          rw [← isPrefixOf_split hpre']; exact hb.2
+
+theorem parseBech32m_some (env : Env) (net : Network) (s : String) (ev bl : Nat) (mk : Bytes → Info) (i : Info)
+    (hmk : ∀ d, d.length = bl → (mk d).wellSized = true)
+    (h : parseBech32m env net s ev bl mk = .ok (some i)) :
+    ∃ hrp dec spec, env.bech32Parse s = some (hrp, ev, dec, spec) ∧ net.parseHrp = some hrp ∧ dec.length = bl ∧
+      (ev = 0 → spec = .bech32) ∧ (ev ≠ 0 → spec = .bech32m) ∧ i = mk dec := by
+  unfold parseBech32m at h
+  cases hp : env.bech32Parse s with
+  | none => simp [hp] at h
+  | some q =>
+    obtain ⟨hrp, version, decoded, spec⟩ := q
+    simp only [hp] at h
+    split at h
+    · cases h
+    · rename_i h1
+      split at h
+      · cases h
+      · rename_i h2
+        split at h
+        · cases h
+        · rename_i h3
+          split at h
+          · cases h
+          · rename_i h4
+            split at h
+            · cases h
+            · rename_i h5
+              have hl : decoded.length = bl := by simpa using h2
+              have hv : ev = version := by simpa using h3
+              subst hv
+              have hw := hmk _ hl
+              simp only [forInfo_std _ hw, infoForScript_std _ hw, bind, Except.bind, pure, Except.pure, Except.ok.injEq,
+                Option.some.injEq] at h
+              refine ⟨hrp, decoded, spec, rfl, (by simpa using h1 : some hrp = net.parseHrp).symm, hl, ?_, ?_, h.symm⟩
+              · intro h0; simpa [h0] using h4
+              · intro h0; simpa [h0] using h5
+
+/-- ★ any string a network of the table accepts as an address denotes one of the five standard kinds with a payload of
+exactly the kind's length, and that network's own address for the denoted script is the string itself (its lower-case
+form for Bech32, which is case-insensitive) -/
+theorem C08_accepted_reencodes (env : Env) (laws : CodecLaws env) (net : Network) (hn : net ∈ all) (t : String) (i : Info)
+    (h : parseAddress env net t = .ok (some i)) :
+    i.wellSized = true ∧ forInfo i = .ok (stdScript i) ∧
+    ∃ a, forScriptInfo env net i = .ok (some a) ∧ forScript env net (stdScript i) = .ok (some a) ∧ (a = t ∨ a = asciiLower t) := by
+  have htab := C08_table_consistent net hn
+  have finish : ∀ a, i.wellSized = true → forScriptInfo env net i = .ok (some a) → (a = t ∨ a = asciiLower t) →
+      i.wellSized = true ∧ forInfo i = .ok (stdScript i) ∧
+      ∃ a, forScriptInfo env net i = .ok (some a) ∧ forScript env net (stdScript i) = .ok (some a) ∧ (a = t ∨ a = asciiLower t) := by
+    intro a hw ha hor
+    refine ⟨hw, forInfo_std i hw, a, ha, ?_, hor⟩
+    simp only [forScript, infoForScript_std i hw, bind, Except.bind, ha]
+  unfold parseAddress at h
+  split at h
+  · cases h
+  · -- P2PKH
+    cases h1 : parseP2pkh env net t with
+    | error e => simp [h1, orElse] at h
+    | ok o1 =>
+      cases o1 with
+      | some i1 =>
+        simp only [h1, orElse, Except.ok.injEq, Option.some.injEq] at h
+        subst h
+        obtain ⟨p, hsh, hp, hb, hdec, hl, rfl⟩ := parseB58Addr_some env net _ .p2pkh t i1 (by simp [Info.wellSized]) h1
+        refine finish t (by simp [Info.wellSized, hl]) ?_ (Or.inl rfl)
+        simp only [forScriptInfo, forP2pkh, b58Out, htab.1, hp, hb, if_true, laws.b58_canon _ _ hdec]
+      | none =>
+        simp only [h1, orElse] at h
+        cases h2 : parseP2sh env net t with
+        | error e => simp [h2] at h
+        | ok o2 =>
+          cases o2 with
+          | some i2 =>
+            simp only [h2, Except.ok.injEq, Option.some.injEq] at h
+            subst h
+            obtain ⟨p, hsh, hp, hb, hdec, hl, rfl⟩ := parseB58Addr_some env net _ .p2sh t i2 (by simp [Info.wellSized]) h2
+            refine finish t (by simp [Info.wellSized, hl]) ?_ (Or.inl rfl)
+            simp only [forScriptInfo, forP2sh, b58Out, htab.2.1, hp, hb, if_true, laws.b58_canon _ _ hdec]
+          | none =>
+            simp only [h2] at h
+            cases h3 : parseP2pkhSegwit env net t with
+            | error e => simp [h3] at h
+            | ok o3 =>
+              cases o3 with
+              | some i3 =>
+                simp only [h3, Except.ok.injEq, Option.some.injEq] at h
+                subst h
+                obtain ⟨hrp, dec, spec, hpar, hh, hl, hs0, hs1, rfl⟩ :=
+                  parseBech32m_some env net t 0 20 .p2pkhWit i3 (by simp [Info.wellSized]) h3
+                refine finish (asciiLower t) (by simp [Info.wellSized, hl]) ?_ (Or.inr rfl)
+                simp only [forScriptInfo, forP2pkhWit, htab.2.2, hh, hl, ne_eq, not_true_eq_false, if_false]
+                rw [laws.seg_canon _ _ _ _ _ hpar hs0 hs1 (Or.inl hl) (by omega)]
+              | none =>
+                simp only [h3] at h
+                cases h4 : parseP2shSegwit env net t with
+                | error e => simp [h4] at h
+                | ok o4 =>
+                  cases o4 with
+                  | some i4 =>
+                    simp only [h4, Except.ok.injEq, Option.some.injEq] at h
+                    subst h
+                    obtain ⟨hrp, dec, spec, hpar, hh, hl, hs0, hs1, rfl⟩ :=
+                      parseBech32m_some env net t 0 32 .p2shWit i4 (by simp [Info.wellSized]) h4
+                    refine finish (asciiLower t) (by simp [Info.wellSized, hl]) ?_ (Or.inr rfl)
+                    simp only [forScriptInfo, forP2shWit, htab.2.2, hh, hl, ne_eq, not_true_eq_false, if_false]
+                    rw [laws.seg_canon _ _ _ _ _ hpar hs0 hs1 (Or.inr hl) (by omega)]
+                  | none =>
+                    simp only [h4] at h
+                    obtain ⟨hrp, dec, spec, hpar, hh, hl, hs0, hs1, rfl⟩ :=
+                      parseBech32m_some env net t 1 32 .p2tr i (by simp [Info.wellSized]) h
+                    refine finish (asciiLower t) (by simp [Info.wellSized, hl]) ?_ (Or.inr rfl)
+                    simp only [forScriptInfo, forP2tr, htab.2.2, hh]
+                    rw [laws.seg_canon _ _ _ _ _ hpar hs0 hs1 (Or.inr hl) (by omega)]
+
+/-- ★ cross-network acceptance, all ordered pairs of the table at once: a string produced on network `n₁` for a script is
+accepted by network `n₂` only as a string `n₂` itself produces for the script it reads from it -/
+theorem C08_cross_network (env : Env) (laws : CodecLaws env) (n₁ n₂ : Network) (_h₁ : n₁ ∈ all) (h₂ : n₂ ∈ all)
+    (script : Bytes) (addr : String) (_hmade : forScript env n₁ script = .ok (some addr)) (i : Info)
+    (hacc : parseAddress env n₂ addr = .ok (some i)) :
+    ∃ a, forScript env n₂ (stdScript i) = .ok (some a) ∧ (a = addr ∨ a = asciiLower addr) := by
+  obtain ⟨_, _, a, _, ha, hor⟩ := C08_accepted_reencodes env laws n₂ h₂ addr i hacc
+  exact ⟨a, ha, hor⟩
+
+/-! ## keys -/
+
+/-- ★ `Key.address()` is the address of the script paying to the key's hash; BIP84 is the P2WPKH address of that hash;
+BIP49 is the P2SH address of the P2WPKH script.  (`hash160` yields 20 bytes: a fact of the hash model.) -/
+theorem C08_key_address (env : Env) (net : Network) (sec : Bytes) (h20 : ∀ m, (env.hash160 m).length = 20) :
+    keyAddress env net sec = forScript env net (stdScript (.p2pkh (env.hash160 sec))) ∧
+    bip84Address env net sec = forScript env net (stdScript (.p2pkhWit (env.hash160 sec))) ∧
+    bip49Address env net sec =
+      forScript env net (stdScript (.p2sh (env.hash160 (stdScript (.p2pkhWit (env.hash160 sec)))))) := by
+  have w1 : (Info.p2pkh (env.hash160 sec)).wellSized = true := by simp [Info.wellSized, h20]
+  have w2 : (Info.p2pkhWit (env.hash160 sec)).wellSized = true := by simp [Info.wellSized, h20]
+  have w3 : (Info.p2sh (env.hash160 (stdScript (.p2pkhWit (env.hash160 sec))))).wellSized = true := by simp [Info.wellSized, h20]
+  refine ⟨?_, ?_, ?_⟩
+  · simp only [keyAddress, forScript, infoForScript_std _ w1, bind, Except.bind, forScriptInfo]
+  · simp only [bip84Address, forScript, infoForScript_std _ w2, bind, Except.bind, forScriptInfo]
+  · simp only [bip49Address, forInfo_std _ w2, forP2s, forScript, infoForScript_std _ w3, bind, Except.bind, forScriptInfo]
+
 end Pycoin.Addr
